@@ -517,27 +517,33 @@ def inlinePinned : List (String × List CallTemplate) := [
 /-- the literals `1 … n` -/
 def upTo (n : Nat) : List Int := (List.range n).map (fun i => ((i + 1 : Nat) : Int))
 
-/-- what the inline helpers return, from the namespace -/
-def inlineBuild (cls : String) (ns : Ns) : Option Built :=
+/-- what the inline helpers return, from the namespace.  `and` / `or` hand their two numbers to `F.new_block`, which
+refuses anything that is not a non-negative integer with ValueError (the empty list that CPython 3.12.1 stores for
+a lone `--` included): a CLIError. -/
+def inlineBuild (cls : String) (ns : Ns) : Except PErr Built :=
   if cls == "AND" then
     (match ns.lookup "P", ns.lookup "N" with
      | some (.int p), some (.int n) =>
-       some (.formula (p.toNat + n.toNat)
+       .ok (.formula (p.toNat + n.toNat)
          ((upTo p.toNat).map (fun v => [v]) ++ (upTo n.toNat).map (fun v => [-(v + (p.toNat : Int))])))
-     | _, _ => none)
+     | some (.ints []), some _ => .error .cliError
+     | some _, some (.ints []) => .error .cliError
+     | _, _ => .error (.unsupported "inline helper"))
   else if cls == "OR" then
     (match ns.lookup "P", ns.lookup "N" with
      | some (.int p), some (.int n) =>
-       some (.formula (p.toNat + n.toNat) [upTo p.toNat ++ (upTo n.toNat).map (fun v => -(v + (p.toNat : Int)))])
-     | _, _ => none)
-  else if cls == "TRUE" then some (.formula 0 [])
-  else if cls == "FALSE" then some (.formula 0 [[]])
+       .ok (.formula (p.toNat + n.toNat) [upTo p.toNat ++ (upTo n.toNat).map (fun v => -(v + (p.toNat : Int)))])
+     | some (.ints []), some _ => .error .cliError
+     | some _, some (.ints []) => .error .cliError
+     | _, _ => .error (.unsupported "inline helper"))
+  else if cls == "TRUE" then .ok (.formula 0 [])
+  else if cls == "FALSE" then .ok (.formula 0 [[]])
   else if cls == "DimacsCmdHelper" then
     (match ns.lookup "input" with
-     | some v => some (.call ⟨"from_dimacs_file", [.param "formula_class", v], []⟩)
-     | none => none)
-  else if cls == "NoSubstitutionCmd" then some .same
-  else none
+     | some v => .ok (.call ⟨"from_dimacs_file", [.param "formula_class", v], []⟩)
+     | none => .error (.unsupported "inline helper"))
+  else if cls == "NoSubstitutionCmd" then .ok .same
+  else .error (.unsupported "inline helper")
 
 /-- an option of an inline helper: a typed positional, or the optional input file of `dimacs` -/
 def inlineOpt (o : OptSpec) : Bool :=
@@ -551,37 +557,45 @@ def _root_.Cnfgen.Gen.CliSpec.inline (s : CliSpec) : Bool :=
 /-- every sub-command the extended interpreter handles -/
 def _root_.Cnfgen.Gen.CliSpec.supportedX (s : CliSpec) : Bool := s.supported || s.inline
 
-/-- some option holds the empty list: only CPython 3.12.1's removal of a lone `--` produces that -/
-def hasQuirk (ns : Ns) : Bool := ns.any (fun p => p.2 == .ints [] || (match p.2 with | .graph _ [] => true | _ => false))
+/-- a dest that takes ONE string (`nargs=None`) -/
+def quirkDest (s : CliSpec) (d : String) : Bool := s.opts.any (fun o => o.dest == d && o.arity == .one)
 
-/-- parse (any tokens), then take the path of the helper's method.  A guard that cannot be evaluated because an
-option holds the empty list instead of a number: the helpers' guards start with an ordering comparison of that
-option with an integer, which raises TypeError (`[] > 2`). -/
+/-- a single-argument option holds the empty list: only CPython 3.12.1's removal of a lone `--` produces that -/
+def hasQuirk (s : CliSpec) (b : Ns) : Bool := b.any (fun p => p.2 == .ints [] && quirkDest s p.1)
+
+/-- parse (any tokens), then take the path of the helper's method -/
 def dispatchTemplateX (ord : List String → Nat) (s : CliSpec) (argv : List String) :
     Except PErr (CallTemplate × Ns) :=
   match parseX s argv with
   | .error e => .error e
   | .ok b =>
-    let ns := namespaceOf s b
-    match selectTemplate ns (s.templates.map (fixTemplate ord ns)) with
-    | .error e => if hasQuirk ns then .error (.crash "TypeError") else .error (liftErr e)
-    | .ok t => .ok (t, ns)
+    match selectTemplate (namespaceOf s b) (s.templates.map (fixTemplate ord (namespaceOf s b))) with
+    | .error e => .error (liftErr e)
+    | .ok t => .ok (t, namespaceOf s b)
+
+/-- the library call of the path taken -/
+def callOf (ord : List String → Nat) (s : CliSpec) (b : Ns) : Except PErr Built :=
+  match selectTemplate (namespaceOf s b) (s.templates.map (fixTemplate ord (namespaceOf s b))) with
+  | .error e => .error (liftErr e)
+  | .ok t => (liftE (instantiate (namespaceOf s b) t)).map .call
+
+/-- a guard or an argument that cannot be evaluated because a single-argument option holds the empty list instead
+of a number: the helpers' guards compare it with an integer (`[] > 2`), which raises TypeError -/
+def quirkCrash (s : CliSpec) (b : Ns) (r : Except PErr Built) : Except PErr Built :=
+  match r with
+  | .error (.unsupported w) => if hasQuirk s b then .error (.crash "TypeError") else .error (.unsupported w)
+  | r => r
 
 def dispatchSpecX (tool : String) (ord : List String → Nat) (s : CliSpec) (argv : List String) :
     Except PErr Built :=
   if !s.supportedX then .error (.unsupported "sub-command with custom argument handling")
   else if topAmbiguous tool s.kind argv then .error .cliError
-  else if s.inline then
-    (match parseX s argv with
-     | .error e => .error e
-     | .ok b =>
-       match inlineBuild s.cls (namespaceOf s b) with
-       | some r => .ok r
-       | none => .error (.unsupported "inline helper"))
   else
-    match dispatchTemplateX ord s argv with
+    match parseX s argv with
     | .error e => .error e
-    | .ok (t, ns) => (liftE (instantiate ns t)).map .call
+    | .ok b =>
+      if s.inline then inlineBuild s.cls (namespaceOf s b)
+      else quirkCrash s b (callOf ord s b)
 
 /-- what `tool … <sub-command> argv` builds; `ord`: the number of vertices of a graph FILE, by its tokens -/
 def dispatchX (tool : String) (ord : List String → Nat) (h : HelperSpec) (argv : List String) : Except PErr Built :=
